@@ -166,7 +166,10 @@ func c10Decide(conf c10Config, q c10Query) (v c10Verdict, reason string) {
 		either = true
 	}
 
-	if conf.Prof == "cfg" && !q.Anonymous {
+	// The profile clauses apply only to a request that is served as its
+	// profile's: not when the device lookup failed or the authentication
+	// failed (then no profile is known and only the global clauses apply).
+	if conf.Prof == "cfg" && !q.Anonymous && conf.profileKnown() {
 		pa := conf.PA
 		allowed := c10InNets(pa.AllowedNets, ip) || c10InASNs(pa.AllowedASN, q.ASN)
 		if !allowed {
